@@ -329,6 +329,9 @@ func (sc *scen) ready(tracked bool) error {
 	if r.Status != 200 || len(sc.be.Records(tag)) != 1 {
 		return fmt.Errorf("ready probe: status %d, backend records %d", r.Status, len(sc.be.Records(tag)))
 	}
+	// the probe's client leaves first: whether the server also ends a "Connection: close" exchange by
+	// itself is not this property's business, and a server that does not must reach the scenarios
+	s.Close()
 	if tracked && !waitUntil(10*time.Second, func() bool { return sc.st.total() == 0 }) {
 		return fmt.Errorf("ready probe connection still tracked by net/http")
 	}
